@@ -11,6 +11,27 @@ OUTSIDE_OK_CALLS = {"slurp_space", "peek_and_getc", "peekc", "getc", "peeking", 
                     "as_current_reader", "fill_pos"}
 
 
+STRICT = {"FUNNEL-INSIDE", "FUNNEL-OUTSIDE", "FUNNEL-CLASSES"}
+
+
+def _is_dispatch(c, f):
+    """Does this call run handler code (a reader_table / reader_macros entry, read_default, Reader.dispatch)?"""
+    if isinstance(c.func, ast.Subscript) and dotted(c.func.value) in ("self.reader_table", "self.reader_macros"):
+        return True
+    if isinstance(c.func, ast.Attribute) and c.func.attr in ("read_default", "dispatch") and dotted(c.func.value) == "self":
+        return True
+    if isinstance(c.func, ast.Name):
+        # a local bound from the handler table
+        for n in ast.walk(f):
+            if isinstance(n, ast.Assign) and any(isinstance(t, ast.Name) and t.id == c.func.id for t in n.targets):
+                v = n.value
+                if isinstance(v, ast.Call) and isinstance(v.func, ast.Attribute) and v.func.attr == "get" and dotted(v.func.value) in ("self.reader_table", "self.reader_macros"):
+                    return True
+                if isinstance(v, ast.Subscript) and dotted(v.value) in ("self.reader_table", "self.reader_macros"):
+                    return True
+    return False
+
+
 def check(ctx, src):
     ctx.rule("FUNNEL-TRY", "the whole body of try_parse_one_form is one try whose handlers re-raise LexException unchanged and convert every other Exception into LexException")
     ctx.rule("FUNNEL-INSIDE", "every dispatch into handler code (reader_table handlers, reader macros, read_default, Reader.dispatch) happens lexically inside that try, or in a function only reachable from inside it")
@@ -19,37 +40,55 @@ def check(ctx, src):
     rq = readerq.Reader(src)
     hr, rd, ex = rq.hr, rq.rd, rq.ex
     m, tp = rq.methods["try_parse_one_form"]
-    body = pyq.body_without_doc(tp)
-    ctx.check(len(body) == 1 and isinstance(body[0], ast.With) and "self.as_current_reader()" in norm(body[0].items[0].context_expr) and len(body[0].body) == 1 and isinstance(body[0].body[0], ast.Try),
-              "FUNNEL-TRY", f"{HR}|try_parse_one_form|single-try", "try_parse_one_form must consist of `with self.as_current_reader(): try: …` and nothing else", HR, tp.lineno,
-              witness="an exception raised by code outside the try escapes hy.read-many as itself", detail="with → try")
-    tr = next((n for n in ast.walk(tp) if isinstance(n, ast.Try)), None)
-    ctx.require(tr is not None, "try not found")
-    hs = [(norm(h.type) if h.type is not None else "<bare>", h) for h in tr.handlers]
-    names = [n for n, _ in hs]
-    ctx.check(names == ["LexException", "Exception"], "FUNNEL-TRY", f"{HR}|try_parse_one_form|handlers", f"handlers are {names}; expected LexException (re-raise) then Exception (convert)", HR, tr.lineno,
-              witness="deep nesting (RecursionError) or a reader macro raising KeyError escapes hy.read-many unconverted", detail=str(names))
-    if len(hs) >= 1:
-        h = hs[0][1]
-        ctx.check(len(h.body) == 1 and isinstance(h.body[0], ast.Raise) and h.body[0].exc is None, "FUNNEL-TRY", f"{HR}|try_parse_one_form|reraise", "LexException must be re-raised unchanged", HR, h.lineno, detail="raise")
-    if len(hs) >= 2:
-        h = hs[1][1]
-        r = h.body[-1] if h.body else None
-        ctx.check(isinstance(r, ast.Raise) and r.exc is not None and norm(r.exc).startswith("LexException.from_reader("), "FUNNEL-TRY", f"{HR}|try_parse_one_form|convert",
-                  "the catch-all must raise LexException.from_reader(...)", HR, h.lineno, detail="raise LexException.from_reader")
-    ctx.check(not tr.finalbody and not tr.orelse, "FUNNEL-TRY", f"{HR}|try_parse_one_form|no-else-finally", "an else/finally clause runs outside the conversion", HR, tr.lineno, detail="none")
+    # the converting try: the try statement of try_parse_one_form whose body dispatches to handler code
+    tries = [n for n in ast.walk(tp) if isinstance(n, ast.Try)]
+    tr = next((t for t in tries if any(_is_dispatch(c, tp) for st in t.body for c in pyq.calls(st))), None)
+    ctx.need(tr is not None, "try_parse_one_form: no try statement around the handler dispatch was recognised")
+    # ancestors of LexException (rebuilt from the sources) decide which handler a reader error reaches first
+    errs0 = src.py("hy/errors.py")
+    bases = {c: [norm(b) for b in n.bases] for m0 in (ex, errs0) for c, n in m0.classes.items()}
+    anc, todo = set(), ["LexException"]
+    while todo:
+        c = todo.pop()
+        if c in anc:
+            continue
+        anc.add(c)
+        todo.extend(bases.get(c, []))
+    anc |= {"Exception", "BaseException"}
+
+    def types(h):
+        if h.type is None:
+            return {"BaseException"}
+        ts = h.type.elts if isinstance(h.type, ast.Tuple) else [h.type]
+        return {str(norm(t)) for t in ts}
+
+    names = [sorted(types(h)) for h in tr.handlers]
+    first = next((h for h in tr.handlers if types(h) & anc), None)
+    desc, grew = {"LexException"}, True
+    while grew:
+        grew = False
+        for c, bs in bases.items():
+            if c not in desc and any(b in desc for b in bs):
+                desc.add(c)
+                grew = True
+    passes = first is not None and len(first.body) == 1 and isinstance(first.body[0], ast.Raise) and first.body[0].exc is None
+    if passes and not types(first) <= desc:
+        ctx.decide("FUNNEL-TRY", f"{HR}|try_parse_one_form|handlers", False, f"handlers are {names}: the pass-through handler also lets {sorted(types(first) - desc)} escape unconverted", HR, tr.lineno,
+                   witness="a plain SyntaxError/ValueError raised while reading (e.g. by a reader macro) escapes hy.read-many as itself", detail=str(names))
+        passes = None
+    if passes is not None:
+        ctx.decide("FUNNEL-TRY", f"{HR}|try_parse_one_form|handlers", passes, f"handlers are {names}: the first one a LexException reaches must re-raise it unchanged", HR, tr.lineno,
+                   witness="PrematureEndOfInput is converted into a plain LexException (the REPL stops asking for more input)", detail=str(names))
+    catchall = next((h for h in tr.handlers if types(h) & {"Exception", "BaseException"}), None)
+    conv = catchall is not None and any(isinstance(r, ast.Raise) and r.exc is not None and norm(r.exc).startswith("LexException.from_reader(") for r in catchall.body[-1:])
+    ctx.decide("FUNNEL-TRY", f"{HR}|try_parse_one_form|convert", conv, f"handlers are {names}: every other Exception must be caught and raised again as LexException.from_reader(...)", HR, tr.lineno,
+               witness="deep nesting (RecursionError) or a reader macro raising KeyError escapes hy.read-many unconverted", detail="except Exception: raise LexException.from_reader")
     # --- dispatch sites
     n_disp = 0
     for q, f in list(hr.funcs.items()) + list(rd.funcs.items()):
         mod = hr if f in hr.funcs.values() else rd
         for c in pyq.calls(f):
-            is_disp = False
-            if isinstance(c.func, ast.Name) and c.func.id == "handler":
-                is_disp = True
-            if isinstance(c.func, ast.Subscript) and norm(c.func.value) in ("self.reader_table", "self.reader_macros"):
-                is_disp = True
-            if isinstance(c.func, ast.Attribute) and c.func.attr in ("read_default", "dispatch") and dotted(c.func.value) == "self":
-                is_disp = True
+            is_disp = _is_dispatch(c, f)
             if not is_disp or mod.enclosing_func(c) is not f:
                 continue
             n_disp += 1
@@ -62,7 +101,7 @@ def check(ctx, src):
                 outside = rq.reachable("parse", stop=("try_parse_one_form",))
                 ctx.check(f.name not in outside, "FUNNEL-INSIDE", key, f"`{f.name}` dispatches to handler code and is reachable from parse() without passing through try_parse_one_form", mod.rel, c.lineno,
                           detail="only reachable from inside the try")
-    ctx.require(n_disp >= 3, f"only {n_disp} dispatch sites found")
+    ctx.need(n_disp >= 3, f"only {n_disp} dispatch sites found")
     # --- outside region
     outside = rq.reachable("parse", stop=("try_parse_one_form",)) | {"try_parse_one_form"}
     cls_bases = {c: [norm(b) for b in n.bases] for c, n in ex.classes.items()}
@@ -101,7 +140,7 @@ def check(ctx, src):
 
 
 SELFTESTS = [
-    dict(name="catch-all narrowed", file=HR, old="            except Exception as e:\n                raise LexException.from_reader(", new="            except (ValueError, SyntaxError) as e:\n                raise LexException.from_reader(", rule="FUNNEL-TRY", key="handlers"),
+    dict(name="catch-all narrowed", file=HR, old="            except Exception as e:\n                raise LexException.from_reader(", new="            except (ValueError, SyntaxError) as e:\n                raise LexException.from_reader(", rule="FUNNEL-TRY", key="convert"),
     dict(name="pass-through widened to SyntaxError", file=HR, old="            except LexException:\n                raise\n", new="            except SyntaxError:\n                raise\n", rule="FUNNEL-TRY", key="handlers"),
     dict(name="dispatch before try", file=HR, rule="FUNNEL-INSIDE", key="try_parse_one_form", edits=[
         ("        with self.as_current_reader():\n            try:\n                self.slurp_space()\n                c = self.getc()\n                start = self._pos\n                if not c:",
